@@ -50,7 +50,7 @@ def answers(script, queries):
                 r = [rep(x) for x in getattr(script, m)(line, col)]
             out.append([digest(r), 'ok', r[:4]])
         except Exception as e:  # noqa
-            out.append([digest(type(e).__name__), 'exc:' + type(e).__name__, []])
+            out.append([digest(type(e).__name__), 'exc:' + type(e).__name__, ['exc:' + type(e).__name__]])
     return out
 
 
